@@ -42,10 +42,27 @@ def _method(repo, cq, name):
 
 def _dist_call(fn):
     """The tfp distribution construction in a method: (ctor name, kwargs dict of ast, method called on it, its args)."""
+    POS = {"Normal": ["loc", "scale"], "MultivariateNormalDiag": ["loc", "scale_diag"], "Categorical": ["logits", "probs"]}
+    # the distribution object may be held in a local (`pi = dist.Categorical(...); pi.sample(...)`)
+    local_dists = {}
     for n in ast.walk(fn):
-        if isinstance(n, ast.Call) and isinstance(n.func, ast.Attribute) and isinstance(n.func.value, ast.Call) and dotted(n.func.value.func).startswith("dist."):
+        if isinstance(n, ast.Assign) and len(n.targets) == 1 and isinstance(n.targets[0], ast.Name) and isinstance(n.value, ast.Call) and (dotted(n.value.func) or "").startswith("dist."):
+            local_dists[n.targets[0].id] = n.value
+    for n in ast.walk(fn):
+        if not (isinstance(n, ast.Call) and isinstance(n.func, ast.Attribute)):
+            continue
+        ctor = None
+        if isinstance(n.func.value, ast.Call) and (dotted(n.func.value.func) or "").startswith("dist."):
             ctor = n.func.value
-            return dotted(ctor.func)[5:], {k.arg: k.value for k in ctor.keywords}, n.func.attr, n
+        elif isinstance(n.func.value, ast.Name) and n.func.value.id in local_dists and n.func.attr in ("sample", "log_prob", "entropy", "mode", "mean"):
+            ctor = local_dists[n.func.value.id]
+        if ctor is None:
+            continue
+        name = dotted(ctor.func)[5:]
+        kws = {k.arg: k.value for k in ctor.keywords}
+        for pn, a in zip(POS.get(name, []), ctor.args):     # positional parameters of the tfp constructors
+            kws.setdefault(pn, a)
+        return name, kws, n.func.attr, n
     return None
 
 
@@ -157,13 +174,21 @@ def softmax_head(ck, repo, nf):
     cls = repo.cls(cq)
     mi = cls._module
     lg = _method(repo, cq, "logits")
+    lg._module = mi
     rets = [n for n in ast.walk(lg) if isinstance(n, ast.Return)]
-    ok = len(rets) == 1 and ast.unparse(rets[0].value) == "self.net(observation)"
+    lgc = nf.cfg_of(lg)
+    lobs = positional_params(lg)[1]
+    ok = len(rets) == 1 and nf.poly(rets[0].value, Scope(lgc, mi, {lobs: Poly.atom("OBS")}, cq), lgc.node_of(rets[0]).id).canon() == "self.net(OBS)"
     ck.ob("R3-distribution-call", f"{cq}.logits", "logits", ok, f"return {ast.unparse(rets[0].value) if rets else None}", "" if ok else "logits must be the raw network output", loc(mi, lg))
     c = _method(repo, cq, "__call__")
     rets = [n for n in ast.walk(c) if isinstance(n, ast.Return)]
     txt = ast.unparse(rets[0].value) if rets else ""
-    ok = txt in ("nnx.softmax(self.logits(observation))", "jax.nn.softmax(self.logits(observation))", "nnx.softmax(self.logits(observation), axis=-1)", "jax.nn.softmax(self.logits(observation), axis=-1)")
+    c._module = mi
+    cc = nf.cfg_of(c)
+    cobs = positional_params(c)[1]
+    nfo = NF(repo, inline_depth=1, inline_calls=False)
+    got = nfo.poly(rets[0].value, Scope(cc, mi, {cobs: Poly.atom("OBS")}, cq), cc.node_of(rets[0]).id).canon() if rets else ""
+    ok = got in ("softmax(self.logits(OBS))", "softmax(self.logits(OBS), axis=-1)")
     ck.ob("R3-distribution-call", f"{cq}.__call__", "softmax", ok, f"return {txt}", "" if ok else "probabilities must be softmax(logits) over the last axis (non-negative, summing to one)", loc(mi, c))
     for meth, op in (("sample", "sample"), ("log_probability", "log_prob"), ("entropy", "entropy")):
         fn = _method(repo, cq, meth)
